@@ -266,6 +266,12 @@ def run(outcome, tier, seed):
     if outcome.hooks_available:
         shared.msgpack_correspondence(outcome, tier, seed)
     jsoncorr.correspondence(outcome, tier, seed)
+    if outcome.hooks_available:
+        # the YAML chunker and the guard of the in-memory path (C02_yaml_guard_*) against the implementation
+        st = shared.harness_corr(outcome, "chunker", "YAML chunker and in-memory guard (libyaml event stream -> chunks / has_document)", tier, seed)
+        for f in st["oracle_failures"]:
+            outcome.oracle_failures.append({"what": "YAML chunker: " + f.split(" :: ", 1)[-1], "input_hex": f.split(" :: ", 1)[0]})
+        outcome.extra["chunker_correspondence"] = {"cases": st["cases"], "kinds": st["kinds"]}
     run_large(outcome, tier, seed)
     run_sessions(outcome, tier, seed)
     # every listed finding: does its witness still reproduce?
